@@ -80,7 +80,7 @@ fn short(d: &Decoded) -> String {
     match d {
         Decoded::Ok(n, v) => {
             let s = v.diag();
-            format!("Ok {} {}", n, &s[..s.len().min(120)].to_string())
+            format!("Ok {} {}", n, s.chars().take(120).collect::<String>())
         }
         Decoded::Err(s) => format!("Err {}", status_name(*s)),
         Decoded::Panic(p) => format!("PANIC {}", p),
@@ -203,7 +203,9 @@ fn bulk_block(rep: &mut Rep, prefix: &[u8], tail: usize, bucket: &str) {
 pub fn run(rep: &mut Rep) {
     let seed = rep.seed;
     // ---------------------------------------------------------------- (1) exhaustive short inputs
-    if !rep.light {
+    // (the intermediate feature configurations run at --scale < 1 and leave the enumeration to the
+    //  corner configurations: the short-input paths do not depend on the feature set)
+    if !rep.light && rep.scale >= 1.0 {
         if rep.shard == 0 {
             bulk_block(rep, &[], 0, "exhaustive/len0");
             bulk_block(rep, &[], 1, "exhaustive/len1");
